@@ -220,14 +220,16 @@ class _JaxtypingLoader(SourceFileLoader):
             compile, tree, path, "exec", dont_inherit=True, optimize=_optimize
         )
 
-    def exec_module(self, module):
+    def get_code(self, fullname):
         # Use a custom optimization marker - the import lock should make this monkey
-        # patch safe
+        # patch safe. The patch covers reading and writing this module's own bytecode
+        # only; it must not be active while the module body runs, as any module that
+        # is imported from there would be cached under our marker as well.
         with patch(
             "importlib._bootstrap_external.cache_from_source",
             ft.partial(_optimized_cache_from_source, self._typechecker.get_hash()),
         ):
-            return super().exec_module(module)
+            return super().get_code(fullname)
 
 
 class _JaxtypingFinder(MetaPathFinder):
